@@ -7,7 +7,8 @@ LEVEL = ("seeded search over simulated executions (exploration): every run is a 
          "code); a clean batch is evidence, not proof. ")
 CHECKS = {
  "C01": ("w1", "3.C01", "real dr/toposort drivers on generated programs under seeded tie-breaks, forced linear extensions and SimPool "
-         "schedules; event-order invariants (at most once, after dependencies attempted, seeds kept) checked on the global event sequence",
+         "schedules; event-order invariants (at most once, after dependencies attempted, seeds kept) checked on the global event sequence; histories inside one process: part of the program ordered with dr.run_order before the evaluation; "
+         "two SimPool tasks asking for dependency graphs with overlapping closures at once (the order derived from each caller's graph must respect every declared dependency)",
          "deterministic simulation: seeded scheduler (seeded __hash__ tie-breaks, forced linear extensions, SimPool thread interleavings) + fault plan; event-order invariants"),
  "C02": ("w1", "3.C02", "real decorators and drivers on generated programs x outcome plans x enable/disable configurations; every invocation, "
          "argument tuple and missing-requirements report compared with an executable reference model; histories inside one process: a component "
@@ -18,25 +19,27 @@ CHECKS = {
          "and observer firing compared with the reference model",
          "deterministic simulation with fault injection: fault plans over components/elements/observers + simulated SIGALRM on a simulated clock; reference-model oracle"),
  "C04": ("w1", "3.C04", "the same program evaluated by nine drivers (engine order, forced extensions, incremental, run_all, fresh-broker variants, "
-         "two seeded SimPool schedules, address-hash order) in two interpreters with different PYTHONHASHSEED; all signatures must agree with "
+         "two seeded SimPool schedules, address-hash order; in 20% after part of the program was ordered with dr.run_order) in two interpreters with different PYTHONHASHSEED; all signatures must agree with "
          "each other and the model; get_subgraphs checked to be an exact edge-closed partition",
          "deterministic simulation: one program under many seeded schedules (linear extensions, sub-graph dispatch, SimPool interleavings, hash seeds); signature equality + reference model"),
  "C05": ("w1s", "3.C05", "histories of spec-set class definitions created through the real SpecSetMeta (implementations bound to one context, a "
          "list of contexts or a helper datasource), every active context and outcome per implementation, evaluated by the real engine; "
-         "overrides built on top of the implementation they override, second-level classes, evaluations in the middle of the history, debug logging on/off; "
+         "overrides built on top of the implementation they override, second-level classes, evaluations in the middle of the history, debug logging on/off, contexts in a sub-class relation; "
          "oracle: latest registered implementation for the active context supplies the spec, overridden and foreign-context implementations never run",
          "deterministic simulation: generated registration histories x active context x outcome plan under seeded engine order; reference model of the resolution rule"),
  "C06": ("w2", "3.C06", "host collection mirrored with the real apply_blacklist / factories / Hydration / run_all on a simulated host (real directory tree with "
          "symlink chains, '..' paths, a sibling sharing the root's name as prefix; command table behind a HostContext subclass) under an audit-hook "
          "monitor: containment of every FileProvider, no open / Popen / executed command matching the deny list across all nine factories, every "
          "write between persister registration and the end of run_all beneath the output directory (+ before/after walk); deny lists mixing literal "
-         "entries with symbolic spec names; a layout history seen by one context object (a directory replaced by a link leaving the root, second evaluation)",
+         "entries with symbolic spec names; a layout history seen by one context object (a directory replaced by a link leaving the root, second evaluation); discovered file names containing $NAME; "
+         "cold-process cases (W2c): the real collect() entered in a fresh child interpreter that has or has not imported insights.specs.default, shipped default specs on a recording HostContext",
          "deterministic simulation: generated host layouts x deny lists x spec sets over all factories, seeded engine order, audit-hook I/O monitor; containment / never-opened / never-executed / writes-beneath-output invariants"),
  "C07": ("w4", "3.C07", "histories of filter registrations / look-ups / late component definitions against the real registry with a reference "
          "model consulted after every look-up; then the filters in force applied to generated content through six paths (host file + real grep, "
          "host command pipeline + real grep, archive post-filter, Cleaner allow-list, filter_content, apply_filters) with the line-level laws checked on each; "
          "two concurrent callers of one Cleaner with different allow-lists as SimPool tasks (pre-empted inside insights/cleaner), each result held to the laws "
-         "and to the result of a lone call",
+         "and to the result of a lone call; fault-injecting configuration (10%): the grep sub-process of the host pre-filter cannot be started (E2BIG/ENOMEM/EAGAIN/ENOENT/EACCES at Popen) "
+         "or the file is rotated away between validate() and load() -- the spec may be absent, never wrong",
          "deterministic simulation: generated registration/look-up/definition histories against a reference registry model + real grep processes on a scratch tree; line-level filter laws"),
  "C08": ("w3", "3.C08", "histories of specs through one stateful Cleaner under generated configurations; planted sensitive tokens (patterns, keywords, "
          "password secrets, IPv4, host names, MACs) must not survive unless exempt or equal to a substitute the obfuscator had already issued at that "
@@ -57,16 +60,16 @@ CHECKS = {
  "C11": ("w2", "3.C11", "collect into an archive, then load it with the real initialize_broker/hydrate in a fresh broker; fault sequences during persist "
          "(n-th write-open / mkdir fails with ENOSPC/EIO via audit hook, data write fails or is silently cut after k bytes, metadata dump fails midway) "
          "and corruption of any subset of stored entries between the two phases; strict field-by-field round trip for untouched entries, 'may be absent, "
-         "never wrong' for damaged ones, load never raises; contents up to 24577 lines, user provider sub-classes; histories: the archive directory "
+         "never wrong' for damaged ones, load never raises; contents up to 24577 lines, user provider sub-classes; contents beginning with U+FEFF; histories: the archive directory "
          "used twice, the archive loaded through a re-pointed link",
          "deterministic simulation with fault injection: I/O faults at the n-th syscall during persist + torn/short writes + corruption of stored state between collect and load; round-trip oracle against what was persisted"),
- "C12": ("w1r", "3.C12", "generated rule sets (shared modules/keys/types, every return kind and constructor-argument shape, payloads around "
+ "C12": ("w1r", "3.C12", "generated rule sets (shared modules/keys/types, every return kind and constructor-argument shape and argument name, payloads around "
          "the size limit) under the real SingleEvaluator / InsightsEvaluator / JsonFormat, serial, incremental and on SimPool with seeded "
          "interleavings traced through evaluators.py; histories: evaluate, re-tag through apply_configs, evaluate again; content templates with "
          "render_content; counting oracle: each rule in exactly the predicted bucket, entry fields (key, component, tags, links), totals",
          "deterministic simulation: seeded SimPool interleavings of the evaluator observer + fault plans on rule bodies; exactly-one-outcome accounting against the reference model"),
  "C17": ("w5", "3.C17", "histories of client operations (identifier reads/regenerations, register/unregister/marker deletions) interleaved with "
-         "environment events and injected I/O faults (ENOSPC/EIO/EACCES/EROFS/EDQUOT/EPERM at the n-th open/remove), from every initial directory state, against the real helpers on a real scratch tree; "
+         "environment events (among them a subscription-manager peer answering in any UUID spelling) and injected I/O faults (ENOSPC/EIO/EACCES/EROFS/EDQUOT/EPERM at the n-th open/remove), from every initial directory state, against the real helpers on a real scratch tree; "
          "invariants after every step: canonical + stable identifier, no rewrite by a read (audit-hook monitor), never both markers, planted symlinks replaced not followed",
          "deterministic simulation with fault injection: generated operation/environment histories + n-th-syscall I/O faults (audit hook), seeded uuid/clock/peer; invariants after every step"),
 }
